@@ -37,6 +37,12 @@ CHECKS = {
  "C14": ("other", "B", "CrossHair symbolic execution (z3) of the real BoolGridFrame accessors over stub arrays, unbounded sizes and coordinates",
          "__getitem__, cell_neighbors, vertex_neighbors, dual and the edge/point/cell incidence are confirmed over all paths for unbounded h, w, y, x; orderings (all_edges, iteration, _from_grid_frame) are a finite structural table h,w<=4/7; semantic use of the inferred graph is decided in C06/C10.",
          "CrossHair soundness; stub arrays stand for BoolArray2D", "2/C14"),
+ "C02": (TV, "A", "per-answer-key SMT exactness queries on the reference formula (z3) after running the real solve() against several oracle routes",
+         "The real Solver.solve() runs on every solution set over 3 booleans / {0,1,2}^2 / bool x int and on random tree programs, against z3, four steered real-z3 oracles (model choice adversarial, contract kept), and the five text back ends served by an exact protocol solver (native deduction mode and refinement through 'sugar'); per key z3 decides forced-value / genuine ambiguity on the reference formula. Oracle orders beyond the steered ones are outside the claim.",
+         "reference translator; z3; vlib/ea/sugartext.py as the external solver", "2/C02"),
+ "C03": (TV, "A+B", "SMT equivalence between the captured CSP text (independent Sugar-syntax reader) and the reference translation (z3); CrossHair for reply parsing",
+         "The string handed to each of the five back ends' external entry point is captured; z3 decides text <=> posted constraints for all variable values (native graph operators included); declarations and the answer-key line are compared exactly; reply parsing is executed symbolically by CrossHair for both reply formats with symbolic values, listed-subset flags and ids != positions.",
+         "independent Sugar reader; reference translator; z3; CrossHair; reply grammar of CspuzSugarInterface.java", "2/C03"),
 }
 NA = {
  "C18": "SegmentationBuilder2D is BFS/DFS over sets/dicts/deques driven by random: CrossHair did not complete a single path of a one-step harness on a 2x2 board in 10 CPU-minutes (measured, DESIGN 2/C18); a hand SMT model would not be the real code.",
